@@ -393,6 +393,13 @@ func (g *lgen) gen(h uint64) *ltx {
 			v := new(big.Int).Div(g.part(issuer.Addr, c), Z(int64(1+r.Intn(5))))
 			if r.Intn(6) == 0 {
 				v = new(big.Int).Add(g.bal(issuer.Addr, c), Z(int64(1+r.Intn(1000)))) // more than the issuer holds: rejected in Run
+			} else if r.Intn(5) == 0 {
+				// the issuer can pay the value or the fee, but not both: value in (balance - fee, balance]
+				c = cgas
+				v = new(big.Int).Sub(g.bal(issuer.Addr, c), r.BigBelow(ZS("30000000000000000")))
+				if v.Sign() < 1 {
+					v = Z(1)
+				}
 			}
 			due := uint64(int64(h) - 2 + int64(r.Intn(8)))
 			pass := mkAcct(7777 + r.Intn(2)).Key
